@@ -57,39 +57,28 @@ Theorem C03_naming_order_irrelevant : forall f dfs dfs' r,
 Proof. exact naming_order_irrelevant. Qed.
 Print Assumptions C03_naming_order_irrelevant.
 
-(* (4) Every output variable holds the dtype cast of the composition of the per-axis applications
-   over exactly its named axes (reducers and callables, masked or not, any rank). *)
+(* (4) Every output variable IS the composition of the per-axis applications over exactly its
+   named axes, last axis first (reducers and callables incl. the dict form, masked or not, any
+   rank, any dtype: the result variable takes the result's dtype, nothing is cast). *)
 Theorem C03_values_axiswise : forall f dfs r v,
   impl_apply f dfs = Ok r -> In v (fvars f) ->
-  exists v', In v' (fvars r) /\ vname v' = vname v /\ vdims v' = vdims v
-             /\ sh (vdat v') = sh (seq_apply dfs v (named_axes dfs v))
-             /\ forall i, at_ (vdat v') i = cast (vint v) (at_ (seq_apply dfs v (named_axes dfs v)) i).
-Proof. exact all_vars_cast_axiswise. Qed.
+  In (Var (vname v) (vdims v) (seq_apply dfs v (named_axes dfs v))) (fvars r).
+Proof. exact all_vars_axiswise. Qed.
 Print Assumptions C03_values_axiswise.
 
-(* (5) PARTIAL (float-typed variables only; for integer-typed variables the cast is the identity
-   only when the result is integral, which is not proved here and is false for 'mean', see the
-   _refuted theorem): the result satisfies the property. *)
-Theorem C03_spec_float_partial : forall f dfs r,
-  impl_apply f dfs = Ok r -> (forall v, In v (fvars f) -> vint v = false) ->
-  spec_file_ok dfs f r = true.
-Proof. exact float_files_satisfy. Qed.
-Print Assumptions C03_spec_float_partial.
+(* (5) FULL: every completed call satisfies the property (all files, all dtypes, all functions). *)
+Theorem C03_spec : forall f dfs r,
+  impl_apply f dfs = Ok r -> spec_file_ok dfs f r = true.
+Proof. exact files_satisfy. Qed.
+Print Assumptions C03_spec.
 
-(* (6) Variables lacking the named dimensions are unchanged (integer cells: cast (z) = z). *)
+(* (6) Variables lacking the named dimensions are unchanged (the very same variable). *)
 Theorem C03_unaffected_vars : forall f dfs r v,
   impl_apply f dfs = Ok r -> In v (fvars f) ->
   (forall d, In d (vdims v) -> lookup d dfs = None) ->
-  exists v', In v' (fvars r) /\ vname v' = vname v /\ vdims v' = vdims v /\ vint v' = vint v
-             /\ sh (vdat v') = sh (vdat v)
-             /\ forall i, at_ (vdat v') i = cast (vint v) (at_ (vdat v) i).
+  In v (fvars r).
 Proof. exact unaffected_vars. Qed.
 Print Assumptions C03_unaffected_vars.
-
-Theorem C03_cast_identity : (forall c, cast false c = c) /\ (forall z, cast true (Some (inject_Z z)) = Some (inject_Z z))
-                            /\ (forall b, cast b None = None).
-Proof. exact (conj cast_float (conj cast_int_integral cast_masked)). Qed.
-Print Assumptions C03_cast_identity.
 
 (* (7) Dimensions: names and order are kept; a named dimension takes the length of the function's
    output on its coordinate (1 for a named reducer), the others keep their length; and every
@@ -114,24 +103,25 @@ Theorem C03_result_wellformed : forall f dfs r,
 Proof. exact result_wellformed. Qed.
 Print Assumptions C03_result_wellformed.
 
-(* (8) The FULL statement (all variables, integer-typed included) is FALSE of the faithful model:
-   x = [0,1] (int64) with x='mean' stores 0, not 0.5 — the output variable is created with the
-   input dtype. *)
+(* (8) Regression of the repaired defect C03-apply-result-dtype: x = [0,1] with x='mean' is 1/2
+   (it used to be stored truncated to 0 in an integer variable). *)
 Definition wit_file : file :=
-  File [(0, 2)] [Var 0 true [0] (of_flat [2] [Some (0 # 1)%Q; Some (1 # 1)%Q] None)].
-Theorem C03_int_mean_refuted : exists f dfs,
-  wf_file f = true /\ forallb (fun p => good (snd p)) dfs = true /\
-  match impl_apply f dfs with Ok r => spec_file_ok dfs f r | Err _ => true end = false.
-Proof. exists wit_file, [(0, RMean)]. vm_compute. repeat split; reflexivity. Qed.
-Print Assumptions C03_int_mean_refuted.
+  File [(0, 2)] [Var 0 [0] (of_flat [2] [Some (0 # 1)%Q; Some (1 # 1)%Q] None)].
+Example C03_mean_not_truncated :
+  wf_file wit_file = true /\
+  match impl_apply wit_file [(0, RMean)] with
+  | Ok r => cells_close (concat (map (fun v => to_flat (vdat v)) (fvars r))) [Some (1 # 2)%Q]
+  | Err _ => false
+  end = true.
+Proof. vm_compute. split; reflexivity. Qed.
 
 (* Non-vacuity: a 2x3 float variable (one masked cell) and a variable without the dimension;
    'sum' along the middle... here along axis 1 of A; B untouched; the result is Ok, satisfies the
    property and differs from the input. *)
 Definition ex_file : file :=
   File [(0, 2); (1, 3)]
-       [Var 5 false [0; 1] (of_flat [2; 3] [Some (1#1)%Q; None; Some (3#2)%Q; Some (2#1)%Q; Some (5#1)%Q; Some (-1#1)%Q] None);
-        Var 6 false [0] (of_flat [2] [Some (7#1)%Q; Some (8#1)%Q] None)].
+       [Var 5 [0; 1] (of_flat [2; 3] [Some (1#1)%Q; None; Some (3#2)%Q; Some (2#1)%Q; Some (5#1)%Q; Some (-1#1)%Q] None);
+        Var 6 [0] (of_flat [2] [Some (7#1)%Q; Some (8#1)%Q] None)].
 Example C03_hyp_inhabited :
   wf_file ex_file = true /\
   match impl_apply ex_file [(1, RSum)] with
